@@ -288,6 +288,8 @@ def run(prop, tier, cdir, seed=0):
             keyword_hygiene(asm, itp, dat, prn, res)
         if prop == 'C14':
             invalid_shapes(z3, asm, a_shapes, tool, res, known)
+        if prop in ('C08', 'C16'):
+            line_bookkeeping(prop, a_shapes, tool, res)
     finally:
         res['native_runs'] = tool.n
         tool.close()
@@ -603,6 +605,45 @@ def keyword_hygiene(asm, itp, dat, prn, res):
                                   'detail': 'downstream keywords that the assembler treats as identifiers: %s' % sorted(set(bad))})
     else:
         res['discharged'] += 1
+
+
+# ------------------------------------------------------------------ C08 / C16: one line, one source-map entry, at the line's own position
+def line_bookkeeping(prop, a_shapes, tool, res):
+    """native observation, one instantiation per abstract shape, through the real Preprocessor:
+    C08: every opcode / print shape emits exactly one instruction (indices of labels and procedures
+    therefore count source instructions); C16: the source-map entry of that instruction is the position
+    of the line's own first token.  (Enumeration over the finite set of shapes, not a solver query: the
+    emitted count and the recorded position do not depend on operand values -- two instantiations agree.)"""
+    bad_count, bad_pos, n = [], [], 0
+    for root, shape in a_shapes:
+        if root not in ('opcodes', 'print_stmt'):
+            continue
+        ob = observe(tool, root, shape)
+        if 'lines' not in ob:
+            continue
+        n += 1
+        code = [l for l in ob['lines'] if l['target'] == 'code']
+        data = [l for l in ob['lines'] if l['target'] == 'data']
+        if len(code) != 1 or data:
+            bad_count.append(ob['source'])
+        if ob.get('mapper_pos', '') != '0':
+            bad_pos.append((ob['source'], ob.get('mapper_pos')))
+    res['obligations'] += 1
+    if prop == 'C08':
+        if bad_count:
+            res['violations'].append({'obligation': 'C08.one_instruction_per_source_instruction', 'source_line': bad_count[0], 'detail': '%d shapes' % len(bad_count)})
+        else:
+            res['discharged'] += 1
+            res['samples'].append({'obligation': 'C08.one_instruction_per_source_instruction', 'verdict': 'holds for all %d accepted opcode / print shapes (observed through the real assembler)' % n})
+    else:
+        if bad_pos:
+            res['violations'].append({'obligation': 'C16.source_map_entry_is_own_line', 'source_line': bad_pos[0][0], 'detail': 'recorded position %s relative to the line start; %d shapes' % (bad_pos[0][1], len(bad_pos))})
+        else:
+            res['discharged'] += 1
+            res['samples'].append({'obligation': 'C16.source_map_entry_is_own_line', 'verdict': 'holds for all %d accepted opcode / print shapes' % n})
+    # nop emits nothing (and is documented): observed
+    r = tool.ask('A', 'nop')
+    res['notes'].append({'nop': r[:3]})
 
 
 # ------------------------------------------------------------------ C14: invalid shapes have no derivation
